@@ -111,8 +111,22 @@ def exec_select(case):
     getters = (obj.get_CpoR, obj.get_HoRT, obj.get_SoR)
     seg_vals, sc = [], []
     detail = {'T': Ts, 'units': units}
+    nco = len(coefs[0])
+    mags = []
     for T in Ts:
         seg_vals.append([[to_dec2(e(cf, T, units)) for e in ev] for cf in coefs])
+        # largest single term |a_j * basis_j(T)| of any segment, per quantity: the scale against which
+        # "exactly" is read (a polynomial value can be a cancelled sum of much larger terms)
+        m = []
+        for e in ev:
+            big = 0.0
+            for cf in coefs:
+                for j in range(nco):
+                    unit = [0.0] * nco
+                    unit[j] = 1.0
+                    big = max(big, abs(cf[j] * e(unit, T, units)))
+            m.append(to_dec(big))
+        mags.append(m)
         res = [_call(lambda g=g: float(np.squeeze(g(T=T)))) for g in getters]
         sts = {r[0] for r in res}
         if sts == {'ok'}:
@@ -155,7 +169,7 @@ def exec_select(case):
         else:
             sci = []
     e = {'ev': 'select', 'f': f, 'n': len(Ts), 'acc': case['acc'], 'seg': seg_vals, 'sc': sc, 'arr': arr,
-         'arri': arri, 'sci': sci}
+         'arri': arri, 'sci': sci, 'mag': mags}
     return [e], detail
 
 
